@@ -626,6 +626,9 @@ class ActionKinds:
             if m in ('lower', 'upper', 'strip', 'replace', 'format', 'join') and UNK in base.kinds:
                 return vk('str')
             return vk(UNK)
+        if d and '.' not in d and d[:1].isupper() and not d.isupper() and d not in self.class_names:
+            # a class that is not the repository's (Decimal, Fraction, OrderedDict ...): its instances are values of that foreign kind
+            return vk('ext:' + d)
         return vk(UNK)
 
     # ---- narrowing --------------------------------------------------------------------------------------------------
